@@ -227,6 +227,25 @@ def _pathline(ctx, pydrex, case):
         return
     ctx.check("pathline_returned", True, pt)
     ts = np.asarray(ts, float)
+    if int(case["seed"]) % 4 == 0:
+        # solver options of one request must not become the defaults of the next: coarse preview in between
+        try:
+            with warnings.catch_warnings():
+                warnings.simplefilter("ignore")
+                try:
+                    P.get_pathline(x, u, L, lo, hi, ms, regular_steps=case["steps"], rtol=1e-1, atol=1e3 * amp)
+                except Exception:
+                    ctx.count("coarse_preview_raised")
+                ts2, pos2 = P.get_pathline(x, u, L, lo, hi, ms, regular_steps=case["steps"])
+            ts2 = np.asarray(ts2, float)
+            same_ = ts2.shape == ts.shape and np.array_equal(ts2, ts) and np.array_equal(np.asarray(pos2(ts2[0])), np.asarray(pos(ts[0])))
+            ctx.check("pathline_options_do_not_leak", bool(same_), pt, n1=len(ts), n2=len(ts2))
+        except Exception as e:
+            # the repeated default request raised although the first one returned (K4 is stateful too): classify alike
+            msg = str(e)
+            k4 = isinstance(e, ValueError) and "f(a) and f(b) must have different signs" in msg
+            ctx.check("pathline_options_do_not_leak", False, pt, key=("pathline_raises/brentq_sign" if k4 else "pathline_options_leak/raises"),
+                      explained=(True if k4 else None), exc=msg[:120])
     ctx.case(case, nontrivial=len(ts) > 2)
     ctx.check("pathline_timestamps", bool(np.all(np.diff(ts) > 0)) and ts[-1] == 0.0 and len(ts) >= 2, pt, ts_head=ts[:3].tolist(), ts_tail=ts[-3:].tolist())
     if case["steps"] is not None:
